@@ -201,6 +201,10 @@ fn main() {
             let g = |i: usize| args.get(i).and_then(|s| s.parse::<u64>().ok()).unwrap_or(0);
             std::process::exit(props::c14::child_main(g(2), g(3) as usize, g(4) as usize));
         }
+        "c16-child" => {
+            let g = |i: usize| args.get(i).and_then(|s| s.parse::<u64>().ok()).unwrap_or(0);
+            std::process::exit(props::c16::child_main(g(2), g(3) as usize));
+        }
         "c10-child" => {
             std::process::exit(props::c10::child_main(args.get(2).map(|s| s.as_str()).unwrap_or("")));
         }
